@@ -125,18 +125,76 @@ def job(args):
     return {"n": n, "v": vs, "outs": len(outs)}
 
 
+# ------------------------------------------------------------------ histories of settings on the one shared conversions object
+HIST_MENU = [(p, k, f, q) for p in (7.8e9, 6.3e5) for k in (2100.0, 1800.0) for f in (47.0, 61.7) for q in (51.0, 59.5)]
+ANCHORS = ("percent_fed", "daily_per_person", "kcals_equivalent", "billions_fed")
+
+
+def check_at_setting(Food, setting, hist, vs, counters):
+    """every conversion of the base triple to all 180 base target triples + the four anchors, against the reference at `setting`"""
+    import numpy as np
+    pop, kd, fd, pd = setting
+    src_b = ("billion kcals", "thousand tons", "thousand tons")
+    src = Food(VALS[0], VALS[1], VALS[2], *src_b)
+    rp = {"history": [list(x) for x in hist]}
+    key = {"history": " -> ".join("%g/%g/%g/%g" % x for x in hist)}
+
+    def bad(clause, detail):
+        if sum(1 for v in vs if v["clause"] == clause) < 5:
+            vs.append(violation(clause, key, detail, rp))
+    for tb in itertools.product(U.KCAL_BASES, U.NUTR_BASES, U.NUTR_BASES):
+        counters["n"] += 1
+        out = src.in_units(*tb)
+        f = U.factors(src_b, tb, pop, kd, fd, pd)
+        for g, b, fac, nm in zip(vals_of(out), VALS, f, ("kcals", "fat", "protein")):
+            if not np.allclose(g, b * fac, rtol=1e-9, atol=0):
+                bad("history_factor_" + nm, "after the settings history %s: %s -> %s gives %s %r, the current setting means %r" % (key["history"], src_b, tb, nm, g.tolist(), b * fac))
+    need = Food(kd * U.DAYS * pop / 1e9, fd * U.DAYS * pop / 1e9, pd * U.DAYS * pop / 1e9, "billion kcals per month", "thousand tons per month", "thousand tons per month")
+    for name, fn, want in (("percent_fed", need.in_units_percent_fed, (100.0, 100.0, 100.0)),
+                           ("daily_per_person", need.in_units_kcals_grams_grams_per_person, (kd, fd, pd)),
+                           ("kcals_equivalent", need.in_units_kcals_equivalent, (kd, kd, kd)),
+                           ("billions_fed", need.in_units_billions_fed, (pop / 1e9,) * 3)):
+        counters["n"] += 1
+        out = fn()
+        got = (out.kcals, out.fat, out.protein)
+        if not all(common.close(g, w, rel=1e-9) for g, w in zip(got, want)):
+            bad("history_anchor_" + name, "after the settings history %s the monthly requirement converts to %r, expected %r" % (key["history"], got, want))
+
+
+def history_job(seqs):
+    Food = _food()
+    vs = []
+    counters = {"n": 0}
+    for seq in seqs:
+        hist = [HIST_MENU[i] for i in seq]
+        Food.conversions = type(Food.conversions)()       # every history starts from the state of a fresh process
+        for k, st in enumerate(hist):
+            pop, kd, fd, pd = st
+            Food.conversions.set_nutrition_requirements(kcals_daily=kd, fat_daily=fd, protein_daily=pd, include_fat=True, include_protein=True, population=pop)
+            # a conversion after every assignment (anything remembered from it must not survive the next assignment)
+            check_at_setting(Food, st, hist[:k + 1], vs, counters)
+    return {"n": counters["n"], "v": vs, "outs": 0, "histories": len(seqs)}
+
+
 def run(tier, seed):
     nset = 1 if tier == "quick" else len(SETTINGS)
     first = seed % len(SETTINGS) if tier == "quick" else 0
     jobs = [((first + i) % len(SETTINGS), [f], [kb]) for i in range(nset) for f in U.FORMS for kb in U.KCAL_BASES]
     res = common.pmap(job, jobs, chunksize=1)
+    d = 2 if tier == "quick" else 3
+    seqs = list(itertools.product(range(len(HIST_MENU)), repeat=d))
+    hres = common.pmap(history_job, [seqs[i:i + 64] for i in range(0, len(seqs), 64)], chunksize=1)
+    res = res + hres
     n = sum(r["n"] for r in res)
     vs = [v for r in res for v in r["v"]]
     cov = {"executions": n, "states": n, "transitions": n, "traces_validated_against_impl": n,
            "distinct_outcomes": sum(r["outs"] for r in res),
            "bound": {"settings (population, kcal, fat, protein per day)": sorted({SETTINGS[j[0]] for j in jobs}),
                      "sources": "every form-consistent triple of the 15 x 18 x 18 unit names (scalar; 1- and 3-month series) + every mixed-form triple of the default bases",
-                     "targets": "all 5 x 6 x 6 base triples", "path independence": "intermediates = every 7th, targets = every 11th base triple"},
+                     "targets": "all 5 x 6 x 6 base triples", "path independence": "intermediates = every 7th, targets = every 11th base triple",
+                     "setting histories": "every ordered sequence of %d assignments from a 2x2x2x2 menu (population, kcal, fat, protein) on the one shared conversions object, "
+                                          "all 180 base conversions + 4 anchors checked after every assignment: %d histories" % (d, len(seqs))},
+           "setting_histories": len(seqs),
            "alphabet": "a state is one (setting, source labels, shape, target) conversion checked against the independent factor table and the algebraic laws",
            "samples": [{"setting": SETTINGS[jobs[0][0]], "from": ["billion kcals each month", "thousand tons each month", "thousand tons each month"],
                         "to": ["percent people fed", "grams per person per day", "effective kcals per person per day"]}],
@@ -148,8 +206,20 @@ def run(tier, seed):
 def replay(rp):
     import numpy as np
     Food = _food()
-    pop, kd, fd, pd = SETTINGS[rp["setting"]]
-    Food.conversions.set_nutrition_requirements(kcals_daily=kd, fat_daily=fd, protein_daily=pd, include_fat=True, include_protein=True, population=pop)
+    if "history" not in rp:
+        pop, kd, fd, pd = SETTINGS[rp["setting"]]
+        Food.conversions.set_nutrition_requirements(kcals_daily=kd, fat_daily=fd, protein_daily=pd, include_fat=True, include_protein=True, population=pop)
+    if "history" in rp:
+        vs = []
+        hist = [tuple(x) for x in rp["history"]]
+        Food.conversions = type(Food.conversions)()
+        for k, st in enumerate(hist):
+            Food.conversions.set_nutrition_requirements(kcals_daily=st[1], fat_daily=st[2], protein_daily=st[3], include_fat=True, include_protein=True, population=st[0])
+            v = []
+            check_at_setting(Food, st, hist[:k + 1], v, {"n": 0})
+            if k == len(hist) - 1:
+                vs = v
+        return vs
     if "anchor" in rp:
         r = job((rp["setting"], [U.FORMS[0]], [U.KCAL_BASES[0]]))
         return r["v"]
